@@ -12,6 +12,7 @@ import Driver.TypedCmd
 import Driver.SchemaCmd
 import Driver.ClientCmd
 import Driver.ConnIdCmd
+import Driver.ClientChanCmd
 
 namespace Aldrin.Driver
 open Aldrin
@@ -188,6 +189,8 @@ def step (ds : DState) (line : String) : DState × String :=
           | none => match schemaCmd cmd args with
           | some out => (ds, out)
           | none => match connIdCmd cmd args with
+          | some out => (ds, out)
+          | none => match clientChanCmd cmd args with
           | some out => (ds, out)
           | none => match discCmd ds.disc cmd args with
           | some (d, out) => ({ ds with disc := d }, out)
